@@ -282,6 +282,96 @@ def pat(block, band=0):
 COMBINERS, GENERAL_COMBINERS = set(), set()       # filled by read_tables
 
 
+TABLE_KEYS, TABLE_SPECIAL = set(), {}             # filled by table_directed_requests (the dumped fast path tables)
+
+# 16.16 x phases of a scaled source, by class: just below a boundary of the 7-bit interpolation weight (a step of
+# 1/128 = 0x200) or of the sample position (0x10000) - where a routine that accumulates the position differently
+# from x0 + i * unit changes weight or pixel first -, on a boundary, just above one, and in the middle
+PHASES_BELOW = [0x1ff, 0xffff, 0x81ff, 0x1fe, 0x7dff]
+PHASES_OTHER = [0x200, 0x8001, 0, 0x8000, 1, 0x4100, 77]
+RUN_SCALES = [FX1 // 2, FX1 * 3 // 4, FX1 * 3 // 2, FX1 // 4, 43690, FX1 + 1]
+
+
+def value_run_requests(rng, quick):
+    """Value runs x sampling phases, per fast path table entry (TABLE_KEYS: the tables dumped from the running
+       library).  Source, mask and destination carry runs of lengths 1, 3, 4, 5, 8, 16 of the value classes transparent /
+       opaque / 1 / 254 / partial / random (driver: pat band 4) in rows of 64..96 pixels, so that routines which test a
+       whole vector of mask or source pixels ("all zero: skip the block", "all opaque: copy") take the shortcut for some
+       blocks and the ordinary path for the pixels that FOLLOW in the same row, at aligned and unaligned destinations.
+         * every entry for scaled sources (nearest / bilinear; the repeat mode its flags name, or each of the four):
+           each scale of 1/2, 3/4, 3/2 (quick tier; thorough: also 1/4, 2/3, 1 + 1/65536) with one x phase just below a
+           weight / pixel boundary and one of the other phase classes, the source partly outside the sampled area for
+           the entries that are not about covering samples;
+         * every entry for untransformed sources that takes a mask image, or whose operator reads source alpha: one
+           request (two in the thorough tier).
+       Wildcard entries are left to combiner_directed_requests (they run the scanline pipeline)."""
+    S = TABLE_SPECIAL
+    concrete = lambda c: (c >> 24) != 0
+    out = []
+    scales = RUN_SCALES[:3] if quick else RUN_SCALES
+    for key in sorted(TABLE_KEYS):
+        (op, sfc, mfc, dfc, cover, nearest, bilinear, rot, ident, rep, ca) = key
+        if op == S["any_op"] or S["any"] in (sfc, mfc, dfc) or not concrete(dfc):
+            continue
+        if not (concrete(sfc) or sfc == S["solid"]):
+            continue
+        if mfc == S["null"]:
+            m = 0
+        elif mfc == S["solid"]:
+            m = SOLID
+        elif concrete(mfc):
+            m = mfc
+        else:
+            continue
+        mca = ca if ca >= 0 else 0
+        if not m:
+            mca = 0
+        jobs = []             # (filter, scale or None, phase, repeat)
+        if concrete(sfc) and not ident and not rot and (nearest or bilinear):
+            # an entry about covering samples does not look at the repeat mode: one mode by the seed
+            reps = [rep] if rep >= 0 else [rng.randrange(4)] if (cover and quick) else [0, 1, 2, 3]
+            for r in reps:
+                if quick:
+                    # one request per scale; over the scales of one entry both phase classes occur
+                    cl = [PHASES_BELOW, PHASES_OTHER, rng.choice([PHASES_BELOW, PHASES_OTHER])]
+                    rng.shuffle(cl)
+                    pairs = [(sc, rng.choice(c)) for sc, c in zip(scales, cl)]
+                    if not bilinear:
+                        sp = sorted(pairs, key=lambda p: p[1] not in PHASES_BELOW)
+                        pairs = [sp[0], rng.choice(sp[1:])]
+                else:
+                    pairs = [(sc, rng.choice(c)) for sc in scales for c in (PHASES_BELOW, PHASES_OTHER)]
+                for (sc, ph) in pairs:
+                    jobs.append((4 if bilinear else 3, sc, ph, r))
+        elif (ident or sfc == S["solid"]) and not rot and (concrete(mfc) or (concrete(sfc) and PIXMAN_FORMAT_A(sfc))):
+            jobs = [(0, None, 0, rep if rep >= 0 else 0)] * (1 if quick else 2)
+        for (sfilt, sc, ph, r) in jobs:
+            dw, dh = rng.randint(64, 96), 2
+            dx = rng.choice([0, 0, rng.randint(1, 15)])
+            w = dw - dx
+            t, srep = IDENT, r
+            sw, sh, sx, sy = dw + 6, dh + 2, rng.randint(0, 3), rng.randint(0, 1)
+            sf = sfc
+            if sfc == S["solid"]:
+                sf, sw, sh, sx, sy, srep = SOLID, 1, 1, 0, 0, 0
+            if sc is not None:
+                tx = rng.choice([0, 0, 3, -2]) * FX1 + ph
+                t = [sc, 0, 0, rng.choice([FX1, sc, FX1 * 3 // 4]), tx, rng.choice([0, 0x8000, 0x1ff])]
+                need = (dw * sc >> 16) + 8
+                sw, sh = need + 4, 8
+                if not cover:
+                    sw, sh = rng.choice([(need + 4, 8), (max(3, need * 3 // 5), 4), (max(3, need * 3 // 5), 4), (7, 3)])
+                sx, sy = rng.randint(0, 2), 0
+            mw, mh, mrep, mx, my = dw + 6, dh + 2, 0, rng.randint(0, 3), rng.randint(0, 1)
+            out.append(creq(op, sf, sw, sh, srep, sfilt, t, m, mw, mh, mrep, mca, dfc, dw, dh, sx, sy, mx, my, dx, 0, w, dh,
+                            rng.randrange(1, 2 ** 31), 0, 0, 0, 0, 0, pat(8, 4)))
+    return out
+
+
+def PIXMAN_FORMAT_A(c):
+    return (c >> 12) & 15
+
+
 def combiner_directed_requests(rng, quick):
     """The second table along which implementations differ: the per-operator combiners of the scanline pipeline
        (dumped by the driver: which implementation defines a combiner for which operator, unified and component
@@ -378,6 +468,10 @@ def table_directed_requests(rng, exe, wd, configs, quick=True):
                   max([0] + [f for f in FL_ROT if f in sfl]), FL_ID in sfl, -1 if rep is None else rep,
                   1 if FL_COMPONENT_ALPHA in mfl else (0 if FL_UNIFIED_ALPHA in mfl else -1)))
     concrete = lambda c: (c >> 24) != 0
+    TABLE_KEYS.clear()
+    TABLE_KEYS.update(keys)
+    TABLE_SPECIAL.clear()
+    TABLE_SPECIAL.update(S, any_op=any_op)
     any_src = [("bits", F[n]) for n in ("a8r8g8b8", "x8r8g8b8", "r5g6b5", "a8", "x2r10g10b10", "a8b8g8r8", "a1r5g5b5",
                                         "a8r8g8b8_sRGB")] + [("solid", None), ("bits1x1", F["a8r8g8b8"]), ("gradient", None),
                                                              ("pixbuf", F["x8b8g8r8"]), ("pixbuf", F["x8r8g8b8"])]
@@ -564,6 +658,79 @@ def fill_blt_sweep(rng, quick):
     return out
 
 
+def threaded_api_requests(rng, n):
+    """C16: the drawing entry points other than pixman_image_composite32, on thread-private objects, for the threaded
+       stream (driver kinds L, G, R; plus larger F / B / X requests).  Every request has its own colour / shapes (by its
+       seed) and most calls draw many boxes / glyphs / trapezoids, so that calls of different threads overlap in time.
+         L  pixman_image_fill_boxes / pixman_image_fill_rectangles: operator x colour (opaque / translucent) x destination
+            format (formats pixman_fill handles, formats it does not, wide formats) x alpha map x accessors (plain / slow)
+            x destination clip - both branches of the function (direct pixman_fill and the composited one) are walked
+         G  pixman_composite_glyphs / _no_mask from the thread's own glyph cache (a8 and component-alpha glyphs)
+         R  pixman_rasterize_trapezoid, pixman_add_traps, pixman_add_triangles, pixman_composite_trapezoids / _triangles"""
+    A4 = fmt(4, T_A, 4, 0, 0, 0)
+    fill_ok = ["a8r8g8b8", "x8r8g8b8", "a8b8g8r8", "b8g8r8a8", "r8g8b8a8", "r5g6b5", "b5g6r5", "a8"]
+    fill_no = ["r8g8b8", "b8g8r8", "a1r5g5b5", "a4r4g4b4", "r3g3b2", "x1r5g5b5"]
+    wide = ["a2r10g10b10", "a2b10g10r10", "a8r8g8b8_sRGB"]
+    # CLEAR SRC OVER ADD XOR IN ATOP OUT_REVERSE SATURATE / a few separable and non-separable blend modes
+    fill_ops = [0x00, 0x01, 0x03, 0x03, 0x03, 0x0c, 0x0c, 0x0b, 0x05, 0x09, 0x08, 0x0d, 0x30, 0x31, 0x3b]
+    out = []
+    # blocks of requests of one class, so that consecutive requests (which go to different threads) are of the same class
+    while len(out) < n:
+        cls = rng.choice(["L", "L", "L", "L", "G", "G", "R", "R", "FBX"])
+        for _ in range(rng.choice([4, 6, 8])):
+            seed = rng.randrange(1, 2 ** 31)
+            if cls == "L":
+                kindsel = rng.random()
+                name = rng.choice(fill_ok) if kindsel < 0.55 else rng.choice(fill_no) if kindsel < 0.85 else rng.choice(wide)
+                op = rng.choice(fill_ops)
+                dw, dh = rng.randint(8, 40), rng.randint(2, 6)
+                amap = 1 if (rng.random() < 0.2 and name not in ("a8",)) else 0
+                acc = rng.choice([0, 0, 0, 0, 1, 2, 2])
+                nbox = rng.choice([1, 3, 8, 24, 60, 120]) if acc != 2 else rng.choice([8, 16, 24])
+                opaque = 1 if rng.random() < 0.25 else 0
+                dclip = rng.choice([0, 0, 0, 1, 2])
+                f = [rng.choice([0, 0, 1]), op, F[name], dw, dh, nbox, seed, amap, acc, opaque, dclip]
+                out.append("L %d %s" % (len(f), " ".join(map(str, f))))
+            elif cls == "G":
+                font = rng.choice([0, 0, 1])
+                maskfmt = rng.choice([0, 0, F["a8"], F["a8r8g8b8"]])
+                name = rng.choice(["a8r8g8b8", "x8r8g8b8", "r5g6b5", "a8", "a8b8g8r8", "r8g8b8", "a2r10g10b10"])
+                f = [rng.choice([0x03, 0x03, 0x0c, 0x01, 0x05, 0x0b]), F[name], rng.randint(10, 40), rng.randint(3, 8),
+                     rng.choice([1, 4, 12, 30, 60]), seed, maskfmt, font, 1 if rng.random() < 0.3 else 0]
+                out.append("G %d %s" % (len(f), " ".join(map(str, f))))
+            elif cls == "R":
+                rk = rng.choice([0, 1, 2, 3, 3, 4])
+                if rk <= 2:
+                    df = rng.choice([F["a8"], F["a8"], F["a1"], A4])
+                else:
+                    df = F[rng.choice(["a8r8g8b8", "x8r8g8b8", "r5g6b5", "a8", "r8g8b8", "a4r4g4b4"])]
+                f = [rk, df, rng.randint(8, 40), rng.randint(3, 8), rng.choice([1, 3, 8, 20, 32]), seed,
+                     rng.choice([0x03, 0x0c, 0x03, 0x05, 0x0b, 0x01])]
+                out.append("R %d %s" % (len(f), " ".join(map(str, f))))
+            else:
+                k = rng.choice("FBX")
+                if k == "F":
+                    bpp = rng.choice([8, 16, 32, 32, 1, 4, 24])
+                    stride, rows = rng.choice([8, 13, 20]), rng.randint(2, 6)
+                    maxpx = stride * 32 // bpp
+                    x = rng.randint(0, min(maxpx - 1, 30))
+                    w = rng.randint(1, max(1, min(maxpx - x, 150)))
+                    y = rng.randint(0, rows - 1)
+                    f = [bpp, stride, rows, x, y, w, rng.randint(1, rows - y), rng.randrange(2 ** 32), seed]
+                    out.append("F %d %s" % (len(f), " ".join(map(str, f))))
+                elif k == "B":
+                    bpp = rng.choice([8, 16, 32, 32, 16])
+                    ss, ds, rows = rng.choice([13, 20, 29]), rng.choice([13, 20, 29]), rng.randint(2, 6)
+                    w = rng.randint(1, min(ss, ds) * 32 // bpp - 9)
+                    h = rng.randint(1, rows)
+                    f = [bpp, ss, ds, rows, rng.randint(0, 9), rng.randint(0, rows - h), rng.randint(0, 9),
+                         rng.randint(0, rows - h), w, h, seed]
+                    out.append("B %d %s" % (len(f), " ".join(map(str, f))))
+                else:
+                    out.append("X 2 %d %d" % (seed, rng.randint(6, 12)))
+    return out[:n]
+
+
 def run_config(exe, script, trace, disable, nthreads=0, extra=(), timeout=900, env_extra=None):
     env = dict(os.environ)
     env["PIXMAN_DISABLE"] = disable
@@ -684,6 +851,9 @@ def run_c02(args):
     chk.extra["combiner_directed_requests"] = len(comb)
     chk.extra["simd_combiners"] = len(COMBINERS)
     reqs += comb
+    runs = value_run_requests(random.Random(args.seed * 31337 + 202), quick)
+    chk.extra["value_run_requests"] = len(runs)
+    reqs += runs
     sweep = fill_blt_sweep(rng, quick)
     chk.extra["fill_blt_sweep_requests"] = len(sweep)
     reqs += sweep
@@ -729,6 +899,8 @@ def run_c02(args):
                             label="lookup traces of the repository's tests")
     for v in chk.violations:
         try:
+            if os.path.exists(v["replay"] + ".script"):
+                os.unlink(v["replay"] + ".script")      # a replay directory that is used again: not the old script
             os.link(script, v["replay"] + ".script")
         except OSError:
             pass
@@ -755,6 +927,13 @@ def run_c16(args):
         chk.add_tlc(r, ("negative config (must be rejected) " if neg else "model check ") + "ThreadsMC" + name)
         if not neg and "violated" in r.out:
             raise vf.Infra("ThreadsMC%s violates its invariants:\n%s" % (name, r.out[-2000:]))
+    # entry points that draw several pieces from a temporary of their own (fill_boxes / fill_rectangles, trapezoids,
+    # glyphs): per-call temporary is race-free and solo-equal; one process-wide recoloured temporary must be rejected
+    for name, neg in [("", False), ("_live", True), ("_neg_static_race", True), ("_neg_static_colour", True)]:
+        r = vf.tlc_mc("ThreadsMCFill", cfg="ThreadsMCFill%s.cfg" % name, workers=4, timeout=600, expect_violation=neg)
+        chk.add_tlc(r, ("negative config (must be rejected) " if neg else "model check ") + "ThreadsMCFill" + name)
+        if not neg and "violated" in r.out:
+            raise vf.Infra("ThreadsMCFill%s violates its invariants:\n%s" % (name, r.out[-2000:]))
     exe, px = vf.build_driver("drv_dispatch", "plain", cflags=["-pthread"])
     chk.extra["build"] = px["hash"]
     reqs = gen_requests(rng, 600 if quick else 12000, threads=True)
@@ -768,7 +947,13 @@ def run_c16(args):
     pick = (args.seed % 4) if quick else None
     routed = [r for i, r in enumerate(allreq) if pick is None or (i // blk) % 4 == pick]
     chk.extra["table_directed_requests_in_threads"] = len(routed)
-    reqs = reqs + routed
+    # every other drawing entry point of the public API (fill_boxes / fill_rectangles in both of their branches, glyphs
+    # from per-thread caches, trapezoid / triangle rasterisation, fill / blt, region algebra) on thread-private objects,
+    # each request with its own colour and shapes: state such a function keeps outside its arguments is exposed by the
+    # same two obligations (results equal to the solo run; ThreadSanitizer)
+    api_reqs = threaded_api_requests(random.Random(args.seed * 131 + 16), 240 if quick else 3000)
+    chk.extra["api_entry_point_requests_in_threads"] = {k: sum(1 for r in api_reqs if r[0] == k) for k in "LGRFBX"}
+    reqs = reqs + api_reqs + routed
     script = os.path.join(wd, "reqs.script")
     open(script, "w").write("\n".join(reqs) + "\n")
     chk.sample({"request_script_lines": reqs[:3]})
